@@ -62,17 +62,17 @@ def get_mask_with_key_joins(data, key_joins, subset_state, view=None):
 
         elif len(cid1) == len(cid2):
 
-            key_left_all = []
-            key_right_all = []
-
+            # Compare the key tuples by value (independently of the storage
+            # dtype or string width of the columns): label the values of each
+            # pair of columns with integer codes, and combine the codes.
+            codes = 0
             for cid1_i, cid2_i in zip(cid1, cid2):
-                key_left_all.append(data.get_data(cid1_i, view=view).ravel())
-                key_right_all.append(other.get_data(cid2_i, view=mask_right).ravel())
+                key_left = np.asarray(data.get_data(cid1_i, view=view)).ravel()
+                key_right = np.asarray(other.get_data(cid2_i, view=mask_right)).ravel()
+                values, inverse = np.unique(np.concatenate([key_left, key_right]), return_inverse=True)
+                codes = np.unique(codes * len(values) + inverse.ravel(), return_inverse=True)[1].ravel()
 
-            key_left_all = concatenate_arrays(*key_left_all)
-            key_right_all = concatenate_arrays(*key_right_all)
-
-            mask = np.isin(key_left_all, key_right_all)
+            mask = np.isin(codes[:key_left.size], codes[key_left.size:])
 
             return mask.reshape(data.get_data(cid1_i, view=view).shape)
 
